@@ -54,6 +54,58 @@ theorem C08_default_graph_iff (senv : SEnv) (gs : List TermMap) (ρ : Row)
     · exact .inl ⟨h, rfl⟩
     · exact .inr (.inl ⟨gm, hgm, hd, rfl⟩)
 
+/-! ### subject graph maps and predicate-object graph maps: union, order-independent, no default graph unless named -/
+
+/-- a predicate-object combination of a triples map whose subject map AND predicate-object map both carry graph maps is placed
+    in the graphs of the subject map followed by those of the predicate-object map — one placement per graph map -/
+theorem C08_graph_terms_append (senv : SEnv) (gs₁ gs₂ : List TermMap) (ρ : Row) (h₁ : gs₁ ≠ []) (h₂ : gs₂ ≠ []) :
+    graphTerms senv (gs₁ ++ gs₂) ρ = graphTerms senv gs₁ ρ ++ graphTerms senv gs₂ ρ := by
+  unfold graphTerms
+  simp [h₁, h₂, List.filterMap_append]
+
+/-- with graph maps on only one of the two, the other contributes nothing: in particular NO default-graph placement is
+    added for the side that has no graph map -/
+theorem C08_graph_terms_one_side (senv : SEnv) (gs : List TermMap) (ρ : Row) :
+    graphTerms senv ([] ++ gs) ρ = graphTerms senv gs ρ ∧ graphTerms senv (gs ++ []) ρ = graphTerms senv gs ρ := by
+  simp
+
+/-- the SET of graphs does not depend on whether a graph map is written on the subject map or on the predicate-object map,
+    nor on the order of the graph maps -/
+theorem C08_graph_terms_comm (senv : SEnv) (gs₁ gs₂ : List TermMap) (ρ : Row) (g : Str) :
+    g ∈ graphTerms senv (gs₁ ++ gs₂) ρ ↔ g ∈ graphTerms senv (gs₂ ++ gs₁) ρ := by
+  rw [C08_graph_terms, C08_graph_terms]
+  simp only [List.append_eq_nil_iff, List.mem_append]
+  constructor <;>
+  · rintro (⟨⟨ha, hb⟩, hg⟩ | ⟨gm, hgm, h⟩ | ⟨gm, hgm, h⟩)
+    · exact .inl ⟨⟨hb, ha⟩, hg⟩
+    · exact .inr (.inl ⟨gm, hgm.symm, h⟩)
+    · exact .inr (.inr ⟨gm, hgm.symm, h⟩)
+
+/-- more generally: graph-map lists with the same members give the same set of graphs (duplicates and order are irrelevant) -/
+theorem C08_graph_terms_congr (senv : SEnv) (gs gs' : List TermMap) (ρ : Row) (h : ∀ gm, gm ∈ gs ↔ gm ∈ gs') (g : Str) :
+    g ∈ graphTerms senv gs ρ ↔ g ∈ graphTerms senv gs' ρ := by
+  rw [C08_graph_terms, C08_graph_terms]
+  have hnil : gs = [] ↔ gs' = [] := by
+    constructor
+    · intro e; subst e
+      cases gs' with
+      | nil => rfl
+      | cons a t => exact absurd ((h a).mpr (by simp)) (by simp)
+    · intro e; subst e
+      cases gs with
+      | nil => rfl
+      | cons a t => exact absurd ((h a).mp (by simp)) (by simp)
+  simp only [hnil, h]
+
+/-- the number of placements of one statement is bounded by the number of graph maps (one when there is none): no graph map
+    ever places a statement twice -/
+theorem C08_graph_terms_length (senv : SEnv) (gs : List TermMap) (ρ : Row) :
+    (graphTerms senv gs ρ).length ≤ max 1 gs.length := by
+  unfold graphTerms
+  split
+  · exact Nat.le_max_left _ _
+  · exact Nat.le_trans (List.length_filterMap_le _ _) (Nat.le_max_right _ _)
+
 /-! ### N-TRIPLES is the graph-less projection of N-QUADS -/
 
 /-- the statements of one predicate-object combination as (triple text, graph term) pairs -/
